@@ -52,7 +52,7 @@ def gen(rng, tier, run):
             else:
                 arr.append(bits(rng.random()))
         pvals.append(arr)
-    return {'alpha': bits(alpha), 'shape': shape, 'p': pvals}
+    return {'alpha': bits(alpha), 'shape': shape, 'p': pvals, 'order': rng.choice(['C', 'C', 'F', 'strided'])}
 
 
 def shrink(case):
@@ -62,11 +62,11 @@ def shrink(case):
     size = len(case['p'][0])
     if size > 3:
         half = size // 2
-        yield {'alpha': case['alpha'], 'shape': [half], 'p': [a[:half] for a in case['p']]}
-        yield {'alpha': case['alpha'], 'shape': [size - half], 'p': [a[half:] for a in case['p']]}
+        yield dict(case, shape=[half], p=[a[:half] for a in case['p']])
+        yield dict(case, shape=[size - half], p=[a[half:] for a in case['p']])
     if size > 1:
         for i in range(size):
-            yield {'alpha': case['alpha'], 'shape': [size - 1], 'p': [a[:i] + a[i + 1:] for a in case['p']]}
+            yield dict(case, shape=[size - 1], p=[a[:i] + a[i + 1:] for a in case['p']])
 
 
 def _stub(case):
@@ -76,8 +76,19 @@ def _stub(case):
     class _DS:  # pylint: disable=too-few-public-methods
         size = len(case['p'][0])
 
+    def layout(arr):
+        # same content, another memory layout (Fortran order, or a strided view): results are reported by position
+        if case.get('order') == 'F' and arr.ndim >= 2:
+            return np.asfortranarray(arr)
+        if case.get('order') == 'strided' and arr.ndim >= 1:
+            big = np.zeros(tuple(2 * n for n in arr.shape), dtype=float)
+            view = big[tuple(slice(None, None, 2) for _ in arr.shape)]
+            view[...] = arr
+            return view
+        return arr
+
     class _Res:  # pylint: disable=too-few-public-methods
-        pvalue = [np.array([unbits(x) for x in arr], dtype=float).reshape(case['shape']) for arr in case['p']]
+        pvalue = [layout(np.array([unbits(x) for x in arr], dtype=float).reshape(case['shape'])) for arr in case['p']]
 
     class StubPTest(Test):
         '''carries p-values'''
